@@ -45,6 +45,10 @@ def scenarios(rng, quick):
     # a rule with a hundred alternatives (the stacks of the description parser outgrow their initial size)
     many = "S : " + " | ".join("'a' " * (k % 3 + 1) + "'b'" + (" 'c'" * (k // 3)) for k in range(100)) + " ;\n"
     S.append(dict(name='desc_many_alternatives', pre=['NEW 0'], target=['DESC 0 0 %s' % hx(many)], post_free=True, kind='define'))
+    # a set core with a hundred different symbols after the dot (the array of work vectors of the set construction grows)
+    wide = {'terms': [('t%d' % i, 300 + i) for i in range(100)], 'rules': [('S', ['t%d' % i, 't%d' % ((i * 7) % 100)], None, 0, None) for i in range(100)]}
+    wided = dict(kind='read', g=wide, strict=0, inputs=[[305, 335]])
+    S.append(dict(name='parse_wide', pre=['NEW 0', 'SET 0 0 %d' % rng.choice([0, 1, 2])] + ca.define_lines(0, wided), target=['PARSE 0 0 2 305 335'], post_free=True, kind='parse'))
     # twins of the definition scenarios in which the previous call was made on another object
     for sc in [x for x in S if x['kind'] in ('define', 'new')]:
         S.append(dict(sc, name=sc['name'] + '_after_other', touch=True))
@@ -101,7 +105,7 @@ def run(pid, tier, seed, replay=None):
     script, meta = [], []
     for i, (sc, n) in enumerate(zip(S, counts)):
         ks = list(range(1, n + 1))
-        if quick and len(ks) > 60 and not sc['name'].startswith(('define_big', 'parse_long', 'desc_many')):
+        if quick and len(ks) > 60 and not sc['name'].startswith(('define_big', 'parse_long', 'desc_many', 'parse_wide')):
             ks = sorted(set(ks[:25] + rng.sample(ks[25:], 35)))
         for k in ks:
             script.append(case_lines('f%d_%d' % (i, k), sc, witness, k)); meta.append((i, k))
